@@ -13,6 +13,9 @@ Import ListNotations.
 Local Open Scope string_scope.
 Local Open Scope list_scope.
 
+Lemma func_ok_none h : func_ok None h = true.
+Proof. destruct h; reflexivity. Qed.
+
 Lemma list_eqb_refl (l : list path) : list_eqb path_eqb l l = true.
 Proof.
   induction l as [|x l IH]; simpl; auto. rewrite IH.
@@ -143,7 +146,7 @@ Section Stmts.
   Let dst_alloc := ptr_path_list sigma (p_ptr pd) (s_dst s) wr_dst.
 
   Theorem to_stmts_ok :
-    forallb (stmt_ok pe true LFs LFd HPd dst_alloc) (to_stmts spaths src_need s) = true.
+    forallb (stmt_ok pe true None LFs LFd HPd dst_alloc) (to_stmts spaths src_need s) = true.
   Proof.
     apply forallb_forall. intros st Hst. apply to_stmts_in in Hst.
     destruct Hst as (i & j & h & Hi & T & Hh & ->).
@@ -152,7 +155,7 @@ Section Stmts.
     destruct (src_ok i Hi) as (rl & Irl & Prl & Trl & Arl).
     destruct (dst_ok j Hj) as (wl & Iwl & Pwl & Twl & Awl).
     destruct (i2_rmap _ _ _ _ _ _ _ I2 i j Hi T) as (RM & RIn).
-    unfold stmt_ok. cbn [st_src st_dst st_how st_guard]. rewrite Arl, Awl. cbn [negb andb].
+    unfold stmt_ok. cbn [st_src st_dst st_how st_guard]. rewrite Arl, Awl, func_ok_none. cbn [negb andb].
     assert (E1 : r_path (ref_of (src_at s i)) = rl_path rl) by (rewrite Prl; reflexivity).
     assert (E2 : r_path (ref_of (dst_at s j)) = rl_path wl) by (rewrite Pwl; reflexivity).
     rewrite E1, E2.
@@ -179,7 +182,7 @@ Section Stmts.
   Qed.
 
   Theorem from_stmts_ok :
-    forallb (stmt_ok pe false LFd LFs HPs src_alloc) (from_stmts dpaths dst_need s) = true.
+    forallb (stmt_ok pe false None LFd LFs HPs src_alloc) (from_stmts dpaths dst_need s) = true.
   Proof.
     apply forallb_forall. intros st Hst. apply from_stmts_in in Hst.
     destruct Hst as (j & i & h & Hj & T & Hh & ->).
@@ -188,7 +191,7 @@ Section Stmts.
     destruct (src_ok i Hi) as (wl & Iwl & Pwl & Twl & Awl).
     destruct (dst_ok j Hj) as (rl & Irl & Prl & Trl & Arl).
     pose proof (i2_wmap _ _ _ _ _ _ _ I2 j i Hj T) as WM.
-    unfold stmt_ok. cbn [st_src st_dst st_how st_guard]. rewrite Arl, Awl. cbn [negb andb].
+    unfold stmt_ok. cbn [st_src st_dst st_how st_guard]. rewrite Arl, Awl, func_ok_none. cbn [negb andb].
     assert (E1 : r_path (ref_of (dst_at s j)) = rl_path rl) by (rewrite Prl; reflexivity).
     assert (E2 : r_path (ref_of (src_at s i)) = rl_path wl) by (rewrite Pwl; reflexivity).
     rewrite E1, E2.
@@ -218,7 +221,12 @@ End Stmts.
 Lemma plain_gen_spec jb : plain_gen jb = true ->
   j_src_acc jb = [] /\ j_dst_acc jb = [] /\ j_src_ctor jb = [] /\ j_dst_ctor jb = [].
 Proof.
-  unfold plain_gen. destruct (j_src_acc jb), (j_dst_acc jb), (j_src_ctor jb), (j_dst_ctor jb); try discriminate. auto.
+  unfold plain_gen. destruct (j_src_acc jb), (j_dst_acc jb), (j_src_ctor jb), (j_dst_ctor jb), (j_mapper_hop jb); try discriminate. auto.
+Qed.
+
+Lemma plain_gen_hop jb : plain_gen jb = true -> j_mapper_hop jb = None.
+Proof.
+  unfold plain_gen. destruct (j_src_acc jb), (j_dst_acc jb), (j_src_ctor jb), (j_dst_ctor jb), (j_mapper_hop jb); try discriminate. auto.
 Qed.
 
 Definition state0 (ps pd : parsed) (ws wd : sset) : st :=
@@ -255,6 +263,7 @@ Lemma analyse_shape sigma jb a :
       from_stmts dpaths (fun sname => match m_get (s_wmap s2) sname with
                                       | Some d => match pmap_get dpaths d with Some _ => true | None => false end
                                       | None => false end) s2
+    /\ pl_reset (a_from a) = true
     /\ (pr_use_d pr = false ->
         pl_ctor (a_to a) = None
         /\ pl_alloc (a_to a) =
@@ -267,8 +276,8 @@ Lemma analyse_shape sigma jb a :
               (fun f => match m_get (s_wmap s2) (f_name f) with Some _ => true | None => false end))).
 Proof.
   unfold analyse. destruct (prepare jb) as [pr|]; [|discriminate].
-  intros H. inversion H; subst; clear H. exists pr. split; auto. cbn [a_to a_from pl_stmts pl_ctor pl_alloc].
-  split; [reflexivity|]. split; [reflexivity|].
+  intros H. inversion H; subst; clear H. exists pr. split; auto. cbn [a_to a_from pl_stmts pl_ctor pl_alloc pl_reset].
+  split; [reflexivity|]. split; [reflexivity|]. split; [reflexivity|].
   split; intros ->; split; reflexivity.
 Qed.
 
@@ -309,8 +318,8 @@ Section Job.
 
   Theorem job_plans_safe jb a :
     j_env jb = e -> j_fuel jb = F -> job_gen_guard e F jobs jb = true -> analyse sigma jb = Some a ->
-    plan_safe e (S F) pe true (decl_fields e PSrc (j_src jb)) (decl_fields e PDst (j_dst jb)) (a_to a) = true
-    /\ plan_safe e (S F) pe false (decl_fields e PDst (j_dst jb)) (decl_fields e PSrc (j_src jb)) (a_from a) = true
+    plan_safe e (S F) pe true (j_mapper_hop jb) (decl_fields e PSrc (j_src jb)) (decl_fields e PDst (j_dst jb)) (a_to a) = true
+    /\ plan_safe e (S F) pe false (j_mapper_hop jb) (decl_fields e PDst (j_dst jb)) (decl_fields e PSrc (j_src jb)) (a_from a) = true
     /\ is_struct_decl e PSrc (j_src jb) = true /\ is_struct_decl e PDst (j_dst jb) = true
     /\ zero_wf e (S F) (TNamed PSrc (j_src jb)) = true /\ zero_wf e (S F) (TNamed PDst (j_dst jb)) = true.
   Proof.
@@ -319,7 +328,7 @@ Section Job.
     apply andb_true_iff in G. destruct G as (G & SS). apply andb_true_iff in G. destruct G as (PL & FN).
     destruct (side_gen_spec _ _ _ _ SS) as (sfs & LkS & SufS & ZS & ZTS).
     destruct (side_gen_spec _ _ _ _ SD) as (dfs & LkD & SufD & ZD & ZTD).
-    destruct (analyse_shape _ _ _ An) as (pr & Prep & ST & SF & TO & FR).
+    destruct (analyse_shape _ _ _ An) as (pr & Prep & ST & SF & RS & TO & FR).
     destruct (prepare_plain _ _ PL Prep) as (ps & pd & ws & wd & ParseS & ParseD & E1 & E2 & E0 & UD & US).
     rewrite Je, Jf in ParseS, ParseD.
     destruct (TO UD) as (CT & AT). destruct (FR US) as (CF & AF). clear TO FR.
@@ -386,10 +395,10 @@ Section Job.
                 (fun f => match m_get (s_wmap s2) (f_name f) with Some _ => true | None => false end)) as (AS1 & AS2).
     assert (DS : decl_fields e PSrc (j_src jb) = sfs) by (unfold decl_fields; rewrite LkS; auto).
     assert (DD : decl_fields e PDst (j_dst jb) = dfs) by (unfold decl_fields; rewrite LkD; auto).
-    rewrite DS, DD.
+    rewrite DS, DD, (plain_gen_hop _ PL).
     split; [|split; [|split; [|split; [|split]]]]; auto.
     - unfold plan_safe. rewrite CT, AT, ST. rewrite AD1, AD2. rewrite with_ty_fst. exact TOK.
-    - unfold plan_safe. rewrite CF, AF, SF. rewrite AS1, AS2. rewrite with_ty_fst. exact FOK.
+    - unfold plan_safe. rewrite CF, AF, SF, RS. rewrite AS1, AS2. rewrite with_ty_fst. exact FOK.
     - unfold is_struct_decl. rewrite LkS. auto.
     - unfold is_struct_decl. rewrite LkD. auto.
   Qed.
@@ -441,5 +450,5 @@ Proof.
   rewrite forallb_forall in JG. destruct (JE jb Ijb) as (Je & Jf).
   destruct (job_plans_safe sigma Sigma e Ewf Eok F jobs pe (fun n jb' => penv_of_find sigma jobs pe n jb' PE)
               jb a Je Jf (JG jb Ijb) An) as (A & B & C & D & E1 & E2).
-  cbn [tplans_of tp_src tp_dst tp_to tp_from]. rewrite A, B, C, D, E1, E2. reflexivity.
+  cbn [tplans_of tp_src tp_dst tp_to tp_from tp_mapper_hop]. rewrite A, B, C, D, E1, E2. reflexivity.
 Qed.
